@@ -254,6 +254,13 @@ TRANSPARENT = {
 # transparent for *provenance*; to_string on a foreign error is handled by rules
 
 
+def _peel_view(v):
+    """the `let mut` object behind a chain of borrowing views (`as_mut_slice`, `as_mut`, ...)"""
+    while isinstance(v, Via) and v.name in ("as_mut_slice", "as_mut", "deref_mut", "borrow_mut", "as_deref_mut"):
+        v = v.inner
+    return v
+
+
 def core(v):
     """Strip transparent adaptors."""
     while True:
@@ -1562,10 +1569,17 @@ class Interp:
             if m2_:
                 callee = inst = "parse::<%s>" % m2_.group(1)
         self.calls.append((inst or callee, args, n, self.cur_cond(), self.cur_fn()))
+        # a `&mut` view handed on (`let s = buf.as_mut_slice(); f(s)`) is the same out-parameter as `f(&mut buf)`
+        arg_nodes_ = ([n.get("recv")] if n.get("recv") is not None else []) + list(n.get("args") or [])
+        if len(arg_nodes_) == len(args):
+            for an_, av_ in zip(arg_nodes_[1:] if n.get("recv") is not None else arg_nodes_, args[1:] if n.get("recv") is not None else args):
+                if an_ and an_.get("k") != "AddrOf" and (an_.get("aty") or an_.get("ty") or "").startswith("&mut ") and isinstance(_peel_view(av_), MutV) \
+                        and not any(_peel_view(av_) is m_ for m_ in self._mut_args):
+                    self._mut_args.append(_peel_view(av_))
         if self._mut_args:
             for mv in self._mut_args:
-                if any(a is mv for a in args):
-                    mv.ops.append(("outarg", inst or callee, *[a for a in args if a is not mv]))
+                if any(_peel_view(a) is mv for a in args):
+                    mv.ops.append(("outarg", inst or callee, *[a for a in args if _peel_view(a) is not mv]))
             self._mut_args = []
         last = callee.split("::")[-1]
         is_bool = n.get("ty") == "bool"
